@@ -193,6 +193,13 @@ func TwoStore(root cid.Cid, selNode datamodel.Node, reqHas, respHas Has, budget 
 		out.Err = err
 		return out
 	}
+	// IPLD map key order is not significant: traverse with the selector in its canonical
+	// (dag-cbor) form, which is also what a responder decodes from the wire
+	if enc, eerr := ipld.Encode(selNode, dagcbor.Encode); eerr == nil {
+		if canon, derr := ipld.Decode(enc, dagcbor.Decode); derr == nil {
+			selNode = canon
+		}
+	}
 	sel, err := selector.ParseSelector(selNode)
 	if err != nil {
 		out.Err = err
